@@ -21,7 +21,7 @@ VARIABLES segs,      \* set of [id, full, live]
 
 vars == <<segs, arrivals>>
 
-Opts == [mpt |-> MaxSegmentsPerTier, max |-> MaxSegmentSize, growth |-> TierGrowth,
+Opts == [mpt |-> MaxSegmentsPerTier, max |-> MaxSegmentSize, g2 |-> 2 * TierGrowth,   \* g2 = twice the tier growth (so that 1.5, 2.5 are expressible)
          width |-> SegmentsPerMergeTask, floor |-> FloorSegmentSize]
 
 Max2(a, b) == IF a > b THEN a ELSE b
@@ -33,17 +33,18 @@ MinLive(S) == (CHOOSE s \in S : \A t \in S : s.live <= t.live).live
 Eligible(o, S) == {s \in S : s.live < o.max \div 2}
 
 \* CalcBudget, transcribed to integers (exact for integer options and sizes < 2^31):
-\* climb a staircase of tiers of mpt segments each, tier size growing by growth
+\* climb a staircase of tiers of mpt segments each, tier size growing by growth = g2 / 2, rounded down
+\* (the code: tierSize = int64(float64(tierSize) * tierGrowth))
 RECURSIVE BudgetFrom(_, _, _)
 BudgetFrom(o, total, tier) ==
   IF total <= 0 THEN 0
   ELSE IF total < o.mpt * tier
        THEN (total + tier - 1) \div tier          \* ceil(total / tier)
-       ELSE o.mpt + BudgetFrom(o, total - o.mpt * tier, tier * o.growth)
+       ELSE o.mpt + BudgetFrom(o, total - o.mpt * tier, (tier * o.g2) \div 2)
 Budget(o, S) ==
   IF S = {} THEN 0
   ELSE LET mpt == Max2(o.mpt, 1)
-           oo == [o EXCEPT !.mpt = mpt, !.growth = Max2(o.growth, 1)]
+           oo == [o EXCEPT !.mpt = mpt, !.g2 = Max2(o.g2, 2)]
        IN BudgetFrom(oo, SumLive(Eligible(o, S)), Max2(Max2(MinLive(S), o.floor), 1))
 
 \* ---- the contract of one Plan call ---------------------------------------------
@@ -112,10 +113,10 @@ FairSpec == Spec /\ WF_vars(PlanAndExecute)
 RestWithinBudget == (~ENABLED PlanAndExecute) => PlanOK(Opts, segs, <<>>)
 \* the budget is logarithmic in the data: at most mpt segments per tier
 RECURSIVE Tiers(_, _, _)
-Tiers(o, total, tier) == IF total <= 0 THEN 0 ELSE 1 + Tiers(o, total - o.mpt * tier, tier * o.growth)
+Tiers(o, total, tier) == IF total <= 0 THEN 0 ELSE 1 + Tiers(o, total - o.mpt * tier, (tier * o.g2) \div 2)
 BudgetIsLogarithmic ==
   segs # {} => Budget(Opts, segs) <= Max2(Opts.mpt, 1) *
-                  Tiers([Opts EXCEPT !.mpt = Max2(Opts.mpt, 1), !.growth = Max2(Opts.growth, 1)],
+                  Tiers([Opts EXCEPT !.mpt = Max2(Opts.mpt, 1), !.g2 = Max2(Opts.g2, 2)],
                         SumLive(Eligible(Opts, segs)), Max2(Max2(MinLive(segs), Opts.floor), 1))
 \* every plan strictly decreases (#segments, then #deleted documents), so that
 \* without arrivals the planner runs out of work
